@@ -23,7 +23,7 @@ def demo(wt, sd):
         gm = open(os.path.join(tmp, "go.mod")).read()
         import re
         gm = re.sub(r"=>\s*\S+", "=> " + wt, gm); open(os.path.join(tmp, "go.mod"), "w").write(gm)
-        rc, out = sh("cd %s && go run . 2>&1 | tail -15" % tmp, env=ENV)
+        rc, out = sh("cd %s && go run . %s 2>&1 | tail -15" % (tmp, wt), env=ENV)
         shutil.rmtree(tmp, ignore_errors=True)
         return (1 if (rc != 0 or "exit status" in out) else 0), out[-600:]
     return None, "no demo found"
